@@ -300,7 +300,7 @@ def unApos : Text → Text
       | d :: s' => if d = '\'' then '\'' :: unApos s' else c :: d :: unApos s'
     else c :: unApos s
 
-/-- `resolve_sheet`: `re.match(SHEET_TITLE, sheet_str + '!')` on a text without `!`; group `quoted` with
+/-- `resolve_sheet`: `re.fullmatch(SHEET_TITLE, sheet_str + '!')`; group `quoted` with
     its doubled apostrophes un-doubled, or `notquoted` (no `'`, `^`, blank), else the text itself. -/
 def resolveSheet (sheetStr : Text) : Text :=
   let s := strip sheetStr
@@ -338,11 +338,12 @@ def rangeBoundaries (rng : Text) : (Nat × Nat) × (Nat × Nat) :=
   ((if b1.1 = 0 then 1 else b1.1, if b1.2 = 0 then 1 else b1.2),
    (if b2.1 = 0 then Gen.maxCol else b2.1, if b2.2 = 0 then Gen.maxRow else b2.2))
 
-/-- `resolve_ranges` for a single area: the sheet and the matrix of addresses, row by row. -/
+/-- `resolve_ranges` for a single area (the `split(',')` over several areas is not modelled): the sheet
+    part is cut at the last `!`; the matrix of addresses, row by row. -/
 def resolveRanges (a : Text) : Text × List (List Text) :=
-  let p := split1 '!' a
-  let sheet := match p.2 with | some _ => resolveSheet p.1 | none => "Sheet1".toList
-  let rng := match p.2 with | some r => r | none => p.1
+  let p := rsplit1 '!' a
+  let sheet := if a.contains '!' then resolveSheet p.1 else "Sheet1".toList
+  let rng := if a.contains '!' then p.2 else a
   let b := rangeBoundaries rng
   let sheetStr := if sheet = [] then [] else sheet ++ ['!']
   (sheet,
@@ -357,13 +358,13 @@ def mkRange (a name : Text) : XLRange :=
 
 /-! ## model.py -/
 
-/-- the address computed at the top of the loop of `build_defined_names`. -/
+/-- the address computed at the top of the loop of `build_defined_names`: `rpartition('!')`, the `$`
+    dropped from the coordinate part only, the sheet part resolved. -/
 def normAddress (target : Text) : Text :=
-  let a := target.filter (· ≠ '$')
-  if a.count '!' = 1 then
-    let p := rsplit1 '!' a
-    resolveSheet p.1 ++ '!' :: p.2
-  else a
+  if target.contains '!' then
+    let p := rsplit1 '!' target
+    resolveSheet p.1 ++ '!' :: p.2.filter (· ≠ '$')
+  else target.filter (· ≠ '$')
 
 /-- the tail of the loop body: a name for a formula cell is entered in `formulae` too. -/
 def linkFormula (m : M) (name a : Text) : M :=
@@ -421,9 +422,9 @@ def areaTerms (sheet : Text) : List FTok → List Text
 
 def rangeTerms (f : XLFormula) : List Text := areaTerms f.sheetName (scan (f.formula.drop 1))
 
-/-- `if cell_address not in self.model.cells: self.model.cells[cell_address] = XLCell(cell_address, '')`. -/
+/-- `if cell_address not in self.model.cells: self.model.cells[cell_address] = XLCell(cell_address, None)`. -/
 def addBlank (cells : Dict XLCell) (a : Text) : Dict XLCell :=
-  if dhas cells a then cells else dset cells a ⟨a, .str [], none, []⟩
+  if dhas cells a then cells else dset cells a ⟨a, .none, none, []⟩
 
 /-- the body of the inner loop of `build_ranges` for a term with `:`. -/
 def useRange (m : M) (t : Text) : M :=
@@ -434,24 +435,13 @@ def useRange (m : M) (t : Text) : M :=
 def buildRanges (m : M) : M :=
   m.formulae.foldl (fun m e => (rangeTerms e.2).foldl useRange m) m
 
-/-- `XLCell.__post_init__` → `resolve_address`: `addr.split('!')` must give two parts. -/
-def bangCrash (wb : Workbook) (ignore : List Text) : Bool :=
-  wb.sheets.any fun sh => !ignore.contains sh.name && sh.name.contains '!' && !sh.cells.isEmpty
-
-/-- `resolve_ranges`: `rng.split('!')` must give at most two parts. -/
-def rangeBangCrash (defs : List (Text × Text)) : Bool :=
-  defs.any fun d => let a := normAddress d.2; a.contains ':' && a.count '!' ≥ 2
-
 /-- `link_cells_to_defined_names` raises for a range without rows ("This isn't a dim2 array"). -/
 def emptyRangeCrash (m : M) : Bool :=
   m.names.any fun d => match d.2 with | .range r => r.cells.isEmpty | .cell _ => false
 
 /-- `ModelCompiler.parse_archive` after `openpyxl.load_workbook`. -/
 def load (wb : Workbook) (ignore : List Text) : Except Crash M :=
-  if bangCrash wb ignore then .error .valueError else
-  let defs := readDefinedNames wb
-  if rangeBangCrash defs then .error .valueError else
-  let m1 := buildDefinedNames (readCells wb ignore) defs
+  let m1 := buildDefinedNames (readCells wb ignore) (readDefinedNames wb)
   if emptyRangeCrash m1 then .error .other else
   .ok (buildRanges (linkCells m1))
 
